@@ -543,6 +543,18 @@ def h_pace( ctx ):
     else:
         res.bad( src, tr[0] if tr else ps, 'reader.open: a later record with an unparsable timestamp / serial ends the replay',
                  'parse_record raises ( ValueError ... ), nothing in the pacing loop catches it, the generator dies and the loader goes FAILED: every record after the corrupt one - in this and all later files - is lost, although the corrupt record alone should be skipped' )
+    # the look-ahead that enters the horizon is the caller's, in HISTORICAL seconds, as given: loader.__init__ stores its parameter unchanged
+    # ( everything downstream adds it to the historical clock; scaled by the speed factor, records arrive up to ( factor - 1 ) x lookahead early )
+    li = src.get( 'loader.__init__' )
+    las = [ a_ for a_ in walk_no_nested( li ) if isinstance( a_, ast.Assign ) and any( dotted( t_ ) == 'self.lookahead' for t_ in a_.targets ) ]
+    params_ = { a_.arg for a_ in li.args.args + li.args.kwonlyargs }
+    if not las:
+        raise AnalysisError( 'loader.__init__: store of self.lookahead not found' )
+    for a_ in las:
+        if isinstance( a_.value, ast.Name ) and a_.value.id in params_:
+            res.ok( src, a_, 'the look-ahead is stored as the caller gave it ( %s )' % norm_text( a_ ))
+        else:
+            res.bad( src, a_, 'loader.__init__ stores a transformed look-ahead ( %s )' % norm_text( a_ ), 'the pacing horizon is historical time + look-ahead: a look-ahead scaled ( by the speed factor ) delivers records before clock + look-ahead reaches them ( factor > 1 ) or withholds records that are due ( factor < 1 )', func='loader.__init__' )
     return res
 
 
@@ -635,6 +647,32 @@ def h_load( ctx ):
         else:
             res.bad( src, r.stmt, 'strict released by a record that may be skipped without advancing self._ts',
                      'a record with a later timestamp but an unusable payload (corrupt JSON, a note) releases strict although _ts stays at the file\'s first record: the next open is non-strict with that target, selects the same file, and its first record is delivered again - endlessly' )
+    # ---- position: EVERY record read ( timestamp and payload text present ) passes the in-order test that advances self._ts before the
+    # iteration ends - also the records that are then skipped ( a note, corrupt JSON, invalid register data ).  A file that holds only such
+    # records otherwise never moves the position, and the strict open selects it again: load() does not return
+    lh0 = cfg.node_of( lp )
+    ts_stores = [ nd for nd in cfg.nodes if nd.kind == 'stmt' and pmatch( nd.stmt, 'self._ts = %s' % TS ) is not None ]
+    adv_tests = [ nd for nd in cfg.nodes if nd.kind == 'test' and isinstance( nd.stmt, ast.If ) and any( st_.stmt is x_ for st_ in ts_stores for b_ in nd.stmt.body for x_ in ast.walk( b_ )) ]
+    streaming = [ nd for nd in cfg.nodes if nd.kind == 'stmt' and pmatch( nd.stmt, 'self.state = self.STREAMING' ) is not None and any( a_ is lp for a_ in src.ancestors( nd.stmt )) ]
+    if not ts_stores or not adv_tests or not streaming:
+        raise AnalysisError( 'loader.load: position store ( self._ts = ts ) / its guard / the STREAMING transition not found' )
+    # the guard that holds the store DIRECTLY in its body, and is nothing but the in-order test ( itself, or a local computed from it )
+    outer = []
+    for t_ in adv_tests:
+        if not any( st_.stmt in t_.stmt.body for st_ in ts_stores ):
+            continue
+        e_ = t_.stmt.test
+        if isinstance( e_, ast.Name ):
+            ds_ = [ a_.value for a_ in ast.walk( lp ) if isinstance( a_, ast.Assign ) and any( isinstance( x_, ast.Name ) and x_.id == e_.id for x_ in a_.targets ) ]
+            e_ = ds_[0] if len( ds_ ) == 1 else e_
+        if pmatch( e_, 'self._ts is None or %s >= self._ts' % TS ) is not None:
+            outer.append( t_ )
+    normal_ = ( 'next', 'true', 'false', 'back', 'break', 'continue', 'loop-exit' )		# a raising record ends the replay (FAILED): not a skipped record
+    if outer and all( lh0 not in cfg.reachable( s0, avoid=outer, labels=normal_ ) for s0 in streaming ):
+        res.ok( src, outer[0].stmt, 'every record read passes the in-order test whose body advances the position, whatever becomes of its payload' )
+    else:
+        res.bad( src, ts_stores[0].stmt, 'loader.load advances its position ( self._ts ) only for accepted records',
+                 'a note or a record with corrupt data is skipped ( continue ) without moving the position: a later file that holds only such records is selected by every following open - load() spins and never returns ( or, with the strict flag released there, re-delivers records )' )
     # ---- acceptance: monotone timestamps; event + future appended together; _ts updated
     rets = [ s_ for s_ in ld.body if isinstance( s_, ast.Return ) and isinstance( s_.value, ast.Tuple ) and len( s_.value.elts ) == 2 ]
     if not rets or not isinstance( rets[-1].value.elts[1], ast.Name ):
@@ -652,12 +690,26 @@ def h_load( ctx ):
             res.ok( src, eb, 'the event and the future entry are queued together (one each per accepted record)' )
         else:
             res.bad( src, fu[0].stmt, 'queueing', 'an accepted record must produce exactly one event and one future entry, under the same condition' )
-        if pmatch( eb.test, 'self._ts is None or %s >= self._ts' % TS ):
-            res.ok( src, eb, 'accepted iff ts >= last accepted timestamp (equal timestamps are all delivered; earlier ones are dropped)' )
+        # the acceptance test - directly, or through a local boolean computed from it earlier in the same iteration ( before self._ts is
+        # advanced to the record's own timestamp, else the comparison would be trivially true )
+        test = eb.test
+        via = None
+        if isinstance( test, ast.Name ):
+            defs_ = [ nd for nd in cfg.nodes if nd.kind == 'stmt' and isinstance( nd.stmt, ast.Assign ) and any( isinstance( t_, ast.Name ) and t_.id == test.id for t_ in nd.stmt.targets ) ]
+            if len( defs_ ) == 1:
+                via = defs_[0]; test = defs_[0].stmt.value
+        stores_ts = [ nd for nd in cfg.nodes if nd.kind == 'stmt' and pmatch( nd.stmt, 'self._ts = %s' % TS ) is not None ]
+        early = via is not None and any( via in cfg.reachable( st_, edge_ok=lambda a_, b_, l_: l_ not in ( 'back', )) and st_ is not via for st_ in stores_ts if cfg.dominates( st_, via ))
+        if pmatch( test, 'self._ts is None or %s >= self._ts' % TS ) and not early:
+            res.ok( src, eb, 'accepted iff ts >= last position (equal timestamps are all delivered; earlier ones are dropped)' )
         else:
             res.bad( src, eb, eb.test, 'a record is accepted iff its timestamp is not before the last accepted one (>=: records with equal timestamps must all be delivered)' )
-        if any( pmatch( s, 'self._ts = %s' % TS ) for s in eb.body ):
-            res.ok( src, eb, 'last accepted timestamp updated' )
+        # every accepted record has moved the position: self._ts = ts either in the accepting block, or on every path from the top of the
+        # iteration to the acceptance
+        lh_ = cfg.node_of( lp )
+        firsts_ = [ m_ for m_, l_ in cfg.succ[lh_] if l_ == 'true' ]
+        if any( pmatch( s, 'self._ts = %s' % TS ) for s in eb.body ) or ( stores_ts and firsts_ and all( cfg.must_pass( firsts_[0], e_, stores_ts, correlated=True ) for e_ in ev )):
+            res.ok( src, eb, 'the position self._ts has been advanced to the timestamp of every accepted record' )
         else:
             res.bad( src, eb, 'self._ts update', 'the last accepted timestamp must follow each accepted record (file switching and ordering depend on it)' )
         fm = pmatch( fu[0].stmt, 'self.future.append( ( %s, _regs ) )' % TS )
